@@ -156,6 +156,74 @@ def rule_shapes(ctx: Ctx, rep: Report) -> None:
     rep.ob(rule, "pubkey:x_only_internal", "pub_key.sec[1:33]" in txt, pk.where(), "the tweak commits to the 32-byte x of the internal key")
 
 
+def _is_even_mask(e: ast.AST) -> bool:
+    """`x & 0xFE` (either way round)."""
+    return isinstance(e, ast.BinOp) and isinstance(e.op, ast.BitAnd) and any(isinstance(o, ast.Constant) and o.value == 0xFE for o in (e.left, e.right))
+
+
+def rule_builder_byte(ctx: Ctx, rep: Report) -> None:
+    """C12.builder_byte: the first control byte the library writes is parity +
+    leaf version, and the verifier reads its low bit as the parity -- so the
+    version that goes into the sum must have its low bit cleared, at the
+    sum or where the leaf it is read from is made (the two sites cooperate:
+    the leaf hash already masks the version, so an odd spelling of a version
+    commits to the same tree and must prove against it)."""
+    rule = "C12.builder_byte"
+    isg = ctx.func(f"{T}.input_script_sig")
+    g = ctx.cfg(isg)
+    sums = [c.func.value for c in own_nodes(isg.node) if isinstance(c, ast.Call) and isinstance(c.func, ast.Attribute) and c.func.attr == "to_bytes"
+            and isinstance(c.func.value, ast.BinOp) and isinstance(c.func.value.op, (ast.Add, ast.BitOr)) and c.args and norm(c.args[0]) == "1"]
+    if len(sums) != 1:
+        rep.unknown(rule, "input_script_sig", isg.where(), f"{len(sums)} one-byte sums: the control byte is not built in the shape this rule reads")
+        return
+    # which operand is the parity: the one bound from the output-key helper
+    par = {norm(e) for a in own_nodes(isg.node) if isinstance(a, ast.Assign) and isinstance(a.value, ast.Call) and "output_pubkey" in call_name(a.value)
+           for t in a.targets if isinstance(t, ast.Tuple) for e in t.elts}
+    ops = [sums[0].left, sums[0].right]
+    ver = [o for o in ops if norm(o) not in par]
+    if len(ver) != 1:
+        rep.unknown(rule, "input_script_sig", isg.where(sums[0]), f"cannot tell the version from the parity in `{norm(sums[0])}`")
+        return
+    v = ver[0]
+    if _is_even_mask(v):
+        rep.ob(rule, "control_byte:version_even", True, isg.where(sums[0]), "the version is masked in the sum")
+        return
+    masked_here = [n for n in own_nodes(isg.node) if (isinstance(n, ast.AugAssign) and isinstance(n.op, ast.BitAnd) and norm(n.target) == norm(v) and isinstance(n.value, ast.Constant) and n.value.value == 0xFE)
+                   or (isinstance(n, ast.Assign) and norm(n.targets[0]) == norm(v) and _is_even_mask(n.value))]
+    tgt = g.nodes_containing(sums[0])
+    if masked_here and g.path_avoiding(tgt, [i for m in masked_here for i in g.nodes_containing(m)]) is None:
+        rep.ob(rule, "control_byte:version_even", True, isg.where(sums[0]), "the version is masked before the sum")
+        return
+    # else it must come masked out of the tree walk: the leaf tuples _tree_helper hands back
+    made = []
+    for q in (f"{T}._tree_helper", f"{T}.tree_helper"):
+        fi = ctx.prog.functions.get(q)
+        if fi is None:
+            continue
+        for r in own_nodes(fi.node):
+            if not (isinstance(r, ast.Return) and r.value is not None):
+                continue
+            for t in ast.walk(r.value):
+                # ((version, script), b"")
+                if isinstance(t, ast.Tuple) and len(t.elts) == 2 and isinstance(t.elts[0], ast.Tuple) and len(t.elts[0].elts) == 2 \
+                        and isinstance(t.elts[1], ast.Constant) and t.elts[1].value == b"":
+                    made.append((fi, r, t.elts[0].elts[0]))
+    if not made:
+        rep.unknown(rule, "tree_helper", isg.where(), "no leaf tuple `((version, script), b'')` is returned by the tree walk: shape not recognised")
+        return
+    for fi, r, x in made:
+        if _is_even_mask(x):
+            ok = True
+        else:
+            g2 = ctx.cfg(fi)
+            ms = [n for n in own_nodes(fi.node) if (isinstance(n, ast.AugAssign) and isinstance(n.op, ast.BitAnd) and norm(n.target) == norm(x) and isinstance(n.value, ast.Constant) and n.value.value == 0xFE)
+                  or (isinstance(n, ast.Assign) and norm(n.targets[0]) == norm(x) and _is_even_mask(n.value))]
+            ok = bool(ms) and g2.path_avoiding(g2.nodes_containing(r), [i for m in ms for i in g2.nodes_containing(m)]) is None
+        rep.ob(rule, f"control_byte:version_even:{fi.qualname.rsplit('.', 1)[1]}", ok, fi.where(r),
+               "the leaf the walk hands back carries the masked version, which is what input_script_sig adds the parity to" if ok else
+               f"the leaf comes back with the caller's spelling of the version (`{norm(x)}` unmasked) and input_script_sig adds the parity to it: for an odd version the control byte claims the wrong parity or the wrong version, and the library's own control block does not verify")
+
+
 def rule_control(ctx: Ctx, rep: Report) -> None:
     """C12.control: control block size rows and the engine gate (shared with C08)."""
     from rules.C08 import rule_sig_rules
@@ -176,9 +244,12 @@ RULES = [
     ("C12.sibling_order", rule_sibling_order),
     ("C12.shapes", rule_shapes),
     ("C12.control", rule_control),
+    ("C12.builder_byte", rule_builder_byte),
 ]
 
 CONTROLS = [
+    {"rule": "C12.builder_byte", "name": "the leaf keeps the caller's spelling of its version", "module": T,
+     "edit": lambda ctx: M.sub_expr(ctx, f"{T}._tree_helper", M.is_text("leaf_version &= 254"), "pass")},
     {"rule": "C12.tweak", "name": "tweak equal to n accepted", "module": T,
      "edit": lambda ctx: M.sub_expr(ctx, f"{T}._tap_tweak", M.is_text("t >= secp256k1.n"), "t > secp256k1.n")},
     {"rule": "C12.tweak", "name": "check_output_pubkey computes its own tweak", "module": T,
